@@ -277,7 +277,7 @@ func ruleNilableTimer(c *Ctx, r *R) {
 					}
 				}
 			})
-			if !safe && c.nameOf(fn) == "xtime.JitterTicker.Stop" {
+			if !safe && c.nameOf(rootFn(fn)) == "xtime.JitterTicker.Stop" {
 				r.excepted(c.nameOf(fn)+"|timer-deref#"+itoa(n), call.Pos(), "Stop on a ticker that is already stopped dereferences the nil timer; a second Stop is outside C20's statement (which covers New/Reset/ticks/one Stop), so this site is listed, not claimed")
 				return
 			}
